@@ -20,7 +20,7 @@ func render(info *types.Info, e ast.Expr, subst map[types.Object]string) string 
 		return ""
 	}
 	s := es(e)
-	if len(subst) == 0 {
+	if len(subst) == 0 && len(renamedFuncs) == 0 {
 		return s
 	}
 	// collect identifier positions to replace
@@ -40,6 +40,12 @@ func render(info *types.Info, e ast.Expr, subst map[types.Object]string) string 
 				if p, ok := subst[o]; ok {
 					b.WriteString(p)
 					return
+				}
+				if fn, isFn := o.(*types.Func); isFn {
+					if old, ok := renamedFuncs[fn]; ok {
+						b.WriteString(old)
+						return
+					}
 				}
 			}
 			b.WriteString(v.Name)
